@@ -1139,7 +1139,11 @@ func (a *Agent) SocksClientRead(client *SocksClient) ([]byte, error) {
 
 	if client != nil {
 		if client.Conn != nil {
-			if client.Connected {
+			a.SocksCliMtx.Lock()
+			connected := client.Connected
+			a.SocksCliMtx.Unlock()
+
+			if connected {
 
 				/* read from our socket to the data buffer or return error */
 				client.Conn.SetReadDeadline(time.Time{})
